@@ -214,3 +214,68 @@ def db_key_lookups(ctx, rule: str, files) -> int:
                 ctx.chk.bad(rule, f"{rp} `{norm(c)[:110]}`", f"no device database (nor the defaults) has a key '{k}' under the feature '{f}': the lookup answers with its default for every family",
                             "a literal database lookup names a key some database carries", f"{rp}:{c.lineno}")
     return n
+
+
+def _unpack_call(v) -> bool:
+    return isinstance(v, ast.Call) and ast.unparse(v.func).split(".")[-1] in ("unpack", "unpack_from")
+
+
+def wire_field_replaced(ctx, rule: str, files) -> int:
+    """wire-field-replaced: a local that `struct.unpack` / `unpack_from` filled from the input bytes is later re-assigned from something
+    that does not depend on its wire value, outside any branch whose test looks at the wire value.  The parser then accepts every
+    value of that field and re-exports a normalised one: a parse / verify that recomputes from the object no longer sees a change of
+    those bytes (tamper acceptance), and parse(export) is no longer the identity on them.  95 unpacking functions in the package, one
+    guarded re-assignment (IskCertificate.parse: tested on the old value), none unguarded, when the rule was written."""
+    def hits(tree):
+        for f in ast.walk(tree):
+            if not isinstance(f, ast.FunctionDef):
+                continue
+            wire = {}
+            for n in ast.walk(f):
+                if isinstance(n, ast.Assign) and _unpack_call(n.value):
+                    for t_ in n.targets:
+                        for e in (t_.elts if isinstance(t_, (ast.Tuple, ast.List)) else [t_]):
+                            if isinstance(e, ast.Name) and e.id != "_":
+                                wire.setdefault(e.id, n.lineno)
+            if not wire:
+                continue
+            yield f, None, None
+            parents = {}
+            for n in ast.walk(f):
+                for ch in ast.iter_child_nodes(n):
+                    parents[ch] = n
+            for n in ast.walk(f):
+                if not isinstance(n, ast.Assign) or _unpack_call(n.value):
+                    continue
+                for t_ in n.targets:
+                    for e in (t_.elts if isinstance(t_, (ast.Tuple, ast.List)) else [t_]):
+                        if not (isinstance(e, ast.Name) and e.id in wire and n.lineno > wire[e.id]):
+                            continue
+                        if any(isinstance(x, ast.Name) and x.id == e.id for x in ast.walk(n.value)):
+                            continue  # derived from the wire value
+                        guarded = False
+                        cur = n
+                        while cur in parents and cur is not f:
+                            par = parents[cur]
+                            if isinstance(par, (ast.If, ast.While)) and any(isinstance(x, ast.Name) and x.id == e.id for x in ast.walk(par.test)):
+                                guarded = True
+                                break
+                            cur = par
+                        if not guarded:
+                            yield f, e.id, n
+    pos = ast.parse("def parse(cls, data):\n    (a, b) = unpack('<2H', data)\n    if a in T:\n        b = T[a]\n    return cls(a, b)\n")
+    neg = ast.parse("def parse(cls, data):\n    (a, b) = unpack('<2H', data)\n    if b & 1:\n        b = 72\n    a = a & 3\n    return cls(a, b)\n")
+    if len([1 for _f, nm, _n in hits(pos) if nm]) != 1 or [1 for _f, nm, _n in hits(neg) if nm]:
+        raise AnalysisError("wire-field-replaced: embedded examples no longer behave (positive must match once, guarded twin must not)")
+    cnt = 0
+    for rp in files:
+        m = ctx.prog.modules.get(rp) or next((x for x in ctx.prog.modules.values() if x.relpath == rp), None)
+        if m is None:
+            continue
+        for f, nm, n in hits(m.tree):
+            if nm is None:
+                cnt += 1
+                continue
+            ctx.chk.bad(rule, f"{rp}::{f.name} `{norm(n)[:90]}`", f"`{nm}` was read from the input bytes and is replaced here by a value that does not depend on what was read (no test on the read value guards it)",
+                        "a field read from the wire is used, checked or derived from - not silently replaced", f"{rp}:{n.lineno}")
+    return cnt
